@@ -42,6 +42,9 @@ def main():
     if sys.argv[1] == "--all":
         jobs = int(sys.argv[sys.argv.index("--jobs") + 1]) if "--jobs" in sys.argv else 3
         ids = sorted(x for x in os.listdir(SEEDED) if os.path.isdir(os.path.join(SEEDED, x)))
+        if "--only" in sys.argv:      # property prefixes, e.g. --only C01,C02
+            pref = tuple(sys.argv[sys.argv.index("--only") + 1].split(","))
+            ids = [x for x in ids if x.startswith(pref)]
         with concurrent.futures.ThreadPoolExecutor(max_workers=jobs) as ex:
             for sid, r in ex.map(one, ids):
                 print(sid, json.dumps(r), flush=True)
